@@ -106,6 +106,10 @@ func pprogram(e pedit) *pj.Program {
 // enclosing messages: 127/128, 16383/16384, 2^21)
 var blobSize int
 
+// wideLeaves > 0: Root.mid carries that many elements in its repeated message field and that many map entries with
+// message values (any per-message budget the library counts in must not be used up by siblings)
+var wideLeaves int
+
 func blob(k int) []byte {
 	b := make([]byte, blobSize)
 	for i := range b {
@@ -140,6 +144,10 @@ func fillMid(md protoreflect.MessageDescriptor, n, k int) protoreflect.Message {
 	l := m.Mutable(f.ByName("leaves")).List()
 	mp := m.Mutable(f.ByName("m")).Map()
 	nums := m.Mutable(f.ByName("nums")).List()
+	if wideLeaves > 0 && k == 1 {
+		// the singular Mid of the root holds MANY sub messages (list elements and map values) at one level
+		n = wideLeaves
+	}
 	for i := 0; i < n; i++ {
 		l.Append(protoreflect.ValueOfMessage(fillLeaf(leafMD, k*10+i)))
 		mp.Set(protoreflect.ValueOfString(fmt.Sprintf("k%d", i)).MapKey(), protoreflect.ValueOfMessage(fillLeaf(leafMD, k*10+5+i)))
@@ -417,7 +425,7 @@ func protoEnumerate(group int, yield func(core.Case) bool) {
 		hi = len(es)
 	}
 	for _, e := range es[lo:hi] {
-		for _, n := range []int{0, 1, 2, -1, -2} {
+		for _, n := range []int{0, 1, 2, -1, -2, -3} {
 			e, n := e, n
 			c := core.Case{Tag: "proto," + e.kind,
 				Desc: func() interface{} { return pcdesc{e.name, n, 0, pprogram(e).SourceDump()} },
@@ -469,6 +477,12 @@ func addUnknownInside(m protoreflect.Message, top bool) {
 var unknownInside bool
 
 func runProto(e pedit, n int, blobBytes int) core.Result {
+	if n == -3 {
+		// n = -3: container size 1, but 1100 list elements and 1100 map values in Root.mid
+		wideLeaves = 1100
+		n = 1
+		defer func() { wideLeaves = 0 }()
+	}
 	if n < 0 {
 		// n = -1 / -2: container size 1 / 2 with unknown fields inside every message
 		unknownInside = true
@@ -477,7 +491,7 @@ func runProto(e pedit, n int, blobBytes int) core.Result {
 	}
 	blobSize = blobBytes
 	defer func() { blobSize = 0 }()
-	r := core.Result{Class: "ok", Key: fmt.Sprintf("proto|%s|%d|%d|%v", e.name, n, blobBytes, unknownInside)}
+	r := core.Result{Class: "ok", Key: fmt.Sprintf("proto|%s|%d|%d|%v|%d", e.name, n, blobBytes, unknownInside, wideLeaves)}
 	prog := pprogram(e)
 	c := pj.Compile(prog)
 	if c.Err != nil {
@@ -512,6 +526,9 @@ func runProto(e pedit, n int, blobBytes int) core.Result {
 	}
 	if unknownInside {
 		trig += ",unknown-fields-inside"
+	}
+	if wideLeaves > 0 {
+		trig += ",1100-sub-messages-in-one-message"
 	}
 	for _, native := range []bool{false, true} {
 		for _, disallow := range []bool{false, true} {
